@@ -187,7 +187,7 @@ def trace_validation(res, work, n):
     finally:
         mod.FormatConstraintTransformer = base
     skipped = [t for t in traces if any(e["op"] == "skip" for e in t["events"])]
-    traces = [t for t in traces if t not in skipped]
+    traces = [t for t in traces if t not in skipped]     # (runs without any recorded callback stay: they are decided on the second level)
     res.coverage["traces_with_n_ary_callbacks_skipped"] = len(skipped)
     slim = [{"id": t["id"], "events": t["events"]} for t in traces]
     if not slim:
@@ -195,13 +195,45 @@ def trace_validation(res, work, n):
     t2, acc, diag = validate_traces("FcEvalTrace", "FcEvalTrace.cfg", slim, work, tag="fctrace")
     res.add_tlc("FcEvalTrace: recorded callbacks of the real FormatConstraintTransformer on random expressions <= 20 leaves", t2)
     res.count("traces_validated_against_impl", len(traces))
+    rejected = []
     for t in traces:
         res.distinct(("trace", t["expr"], tuple(sorted(t["b"].items()))))
         if t["id"] not in acc:
+            rejected.append(t)
+    if not rejected:
+        return
+    # second level: a run whose callbacks the machine does not reproduce (lazy evaluation, shared sub-expressions, no callbacks at all) contradicts C08
+    # only if its RESULT does: evaluated once more without the recording subclass and decided by TLC (FcResultTrace.tla)
+    second = []
+
+    async def again():
+        for t in rejected:
+            ok, msg = await E.fc_eval_real(t["expr"], t["b"])
+            second.append({"id": t["id"], "b": [[k, v] for k, v in sorted(t["b"].items())], "tree": fc_tree_of(t["expr"]),
+                           "final": {"ok": bool(ok), "has_msg": msg is not None}})
+
+    asyncio.run(again())
+    t3, acc3, diag3 = validate_traces("FcResultTrace", "FcResultTrace.cfg", second, work, tag="fcresult")
+    res.add_tlc(f"FcResultTrace: {len(second)} runs whose callbacks the machine does not reproduce, decided on their results", t3)
+    res.coverage["runs_with_other_callback_structure_but_correct_result"] = len([x for x in second if x["id"] in acc3])
+    for t, x in zip(rejected, second):
+        if x["id"] not in acc3:
             at, exp = diag.get(t["id"], (0, ()))
             ev = t["events"][at - 1] if 0 < at <= len(t["events"]) else None
-            res.violation(f"recorded evaluation of '{t['expr']}' is not a behaviour of FcEval.tla: event {at} {ev}; the spec computes {exp}",
+            res.violation(f"recorded evaluation of '{t['expr']}' is not a behaviour of FcEval.tla: event {at} {ev}; the spec computes {exp}; and its result "
+                          f"{x['final']} contradicts the Boolean reading {diag3.get(x['id'], (0, ()))[1]}",
                           {"kind": "trace", "expr": t["expr"], "b": t["b"], "event_index": at})
+
+
+def fc_tree_of(expr):
+    """format-constraint expression -> syntax tree (lists) via the real parser"""
+    import ahb
+    from ahbicht.expressions.condition_expression_parser import parse_condition_expression_to_tree
+
+    def conv(n):
+        return ["leaf", "fc", int(n[2])] if n[0] == "leaf" else [n[0], conv(n[1]), conv(n[2])]
+
+    return conv(ahb.cond_tree_binary(parse_condition_expression_to_tree(expr)))
 
 
 def run():
